@@ -36,10 +36,31 @@ fn expand_event(db: &SchedulesDb, year: &Schedule, it: &mut Interner, src: &str)
         .filter_map(|w| db.get_week(*w))
         .map(|w| json!({"id": it.id(w.id), "runs": w.values.iter().map(|(d, c)| json!([it.id(*d), c])).collect::<Vec<_>>()}))
         .collect();
+    // the yearly values (and the "in use" flags) are the values of the days of the expansion, in order: every day the weeks
+    // refer to gets a profile of its own (with zeros, tiny and ordinary values) unless the model has one
+    let mut db2 = db.clone();
+    for w in weeks_used.iter().filter_map(|w| db.get_week(*w)) {
+        for (d, _) in &w.values {
+            if db2.get_day(*d).is_none() {
+                let k = (d.as_u128() % 1000) as usize;
+                db2.day.push(ScheduleDay { id: *d, name: "D".into(),
+                    values: (0..24).map(|h| [0.0f32, 0.25, 1.0, 1e-6, 0.5][(k * 7 + h * 3 + h / 5) % 5]).collect() });
+            }
+        }
+    }
+    let yv = catch(std::panic::AssertUnwindSafe(|| (db2.year_values(year.id), db2.year_values_is_not_zero(year.id))));
     match got {
-        Ok(g) => json!({"ev": "Expand", "src": src,
+        Ok(g) => {
+            let exp: Vec<f32> = g.iter().flat_map(|d| db2.get_day(*d).map(|x| x.values.clone()).unwrap_or_default()).collect();
+            let (yv_ok, nz_ok) = match &yv {
+                Ok((v, nz)) => (v.len() == exp.len() && v.iter().zip(exp.iter()).all(|(a, b)| a.to_bits() == b.to_bits()),
+                                nz.len() == exp.len() && nz.iter().zip(exp.iter()).all(|(a, b)| *a == (b.abs() > 100.0 * f32::EPSILON))),
+                Err(_) => (false, false),
+            };
+            json!({"ev": "Expand", "src": src,
             "periods": year.values.iter().map(|(w, c)| json!([it.id(*w), c])).collect::<Vec<_>>(),
-            "weeks": weeks, "got": g.iter().map(|d| it.id(*d)).collect::<Vec<_>>()}),
+            "weeks": weeks, "got": g.iter().map(|d| it.id(*d)).collect::<Vec<_>>(), "yv_ok": yv_ok, "nz_ok": nz_ok, "yv_len": exp.len()})
+        }
         Err(site) => json!({"ev": "Expand", "src": src, "periods": [], "weeks": [], "got": [-1], "panic": site}),
     }
 }
